@@ -30,7 +30,7 @@ PATTERNS = {
     'POL': [['Rnp', 'R2'], ['R1t', 'Rnp'], ['Is'], ['k2', 'km'], ['R1t', 'R1'], ['R1', 'R2'], ['R1', 'R1t'], ['R2t', 'R1t'], ['R1', 'H'], ['R2t', 'H'], ['Pol', 'H']],
     'IDX': [['Pat', 'Pa'], ['Pr', 'Pr'], ['Pu', 'Put'], ['Ps', 'Pst'], ['Pm', 'Pmt'], ['Pk', 'Pkt'], ['Pt', 'P'], ['Rv', 'Rvt'], ['Rvt', 'Rv'],
             ['Rs', 'Rst'], ['Rst', 'Rs'], ['M01', 'M10'], ['M10', 'M01'], ['I4'], ['Pn'], ['Rn']],
-    'INV': [['Si', 'S'], ['S', 'Si'], ['Di', 'D'], ['D', 'Di'], ['k2', 'km'], ['I']],
+    'INV': [['Si', 'S'], ['S', 'Si'], ['Di', 'D'], ['D', 'Di'], ['k2', 'km'], ['I'], ['Yti', 'Yt'], ['Yt', 'Yti']],
     'AXT': [['Ma', 'Mb'], ['Mb', 'Ma'], ['Me', 'Mf'], ['kt', 'kt']],
     'EXT': [['Dw', 'Pw', 'kh'], ['Kb', 'Dw', 'Pw'], ['U', 'V'], ['V', 'W'], ['K', 'K'], ['I'], ['Ub', 'Vb']],
     'BLK': [['Dh', 'Dr'], ['Dh', 'Dh'], ['Bm', 'Bmi'], ['Bvt', 'Bv'], ['Bv', 'Bvt'], ['Rw', 'Dg'], ['Dg', 'Dg'], ['Dg', 'Cl'], ['Rw', 'Cl'], ['Dr', 'Drt'], ['Ddi', 'Dd'], ['DgI'], ['RwT', 'Dr'], ['Dr', 'ClT'], ['RwT', 'ClT']],
@@ -86,7 +86,19 @@ def _plan(tier, seed):
 DECLARED_UNIQUE = {'IDX': {'P': None, 'Pu': True, 'Pa': None, 'Pp': None, 'P1': None}, 'EXT': {'Pw': None}}
 
 
-def recognise(ops, declared=None) -> list[str]:
+# lazy inverses the harness built as X.I (inverse atom, inverted atom): "an operator next to its own lazy inverse" is decided by
+# construction, not by the identity test the library's rule happens to use
+LAZY_INVERSE_PAIRS = {'INV': [('Si', 'S'), ('Yti', 'Yt')]}
+
+
+def same_graph(x, y) -> bool:
+    """x and y are the same object, or wrappers of the same class around (recursively) the same object."""
+    if x is y:
+        return True
+    return type(x) is type(y) and hasattr(x, 'operator') and hasattr(y, 'operator') and same_graph(x.operator, y.operator)
+
+
+def recognise(ops, declared=None, inv_pairs=()) -> list[str]:
     """Independent recogniser of the documented patterns (written from the property text).
     declared: {id(index operator): unique_indices argument given at construction} for the operators the harness built."""
     declared = declared or {}
@@ -116,6 +128,9 @@ def recognise(ops, declared=None) -> list[str]:
     for i in range(len(ops) - 1):
         a, b = ops[i], ops[i + 1]
         where = f'at {i}: ({type(a).__name__}, {type(b).__name__})'
+        for img_inv, img_op in inv_pairs:
+            if (same_graph(a, img_inv) and same_graph(b, img_op)) or (same_graph(a, img_op) and same_graph(b, img_inv)):
+                found.append(f'operator next to the lazy inverse the harness built from it {where}')
         if isinstance(a, AbstractLazyInverseOperator) and a.operator is b or isinstance(b, AbstractLazyInverseOperator) and b.operator is a:
             found.append(f'operator next to its own lazy inverse {where}')
         if isinstance(a, rot) and isinstance(b, rot):
@@ -194,6 +209,8 @@ def run(phase, cases, ctx):
 
     dom = ctx['dom']
     env = c01.get_explorer(dom).env
+    with P.quiet():   # what reduce() makes of the inverse atoms and of the atoms they invert, each on its own
+        inv_pairs = [(env.atoms[i].reduce(), env.atoms[o].reduce()) for i, o in LAZY_INVERSE_PAIRS.get(dom, [])]
     violations = []
     counters = collections.Counter()
     nontrivial = set()
@@ -238,7 +255,7 @@ def run(phase, cases, ctx):
                                    'detail': f'result {xstate.describe(env, res_ops)} is still reducible: {label}@{pos} -> {xstate.describe(env, nxt)} (firings {[r[0] for r in rec.log]})'})
         # (2) independent recogniser, top level and nested compositions
         for chain in [res_ops] + [c for o in res_ops for c in nested_chains(o)]:
-            for f in recognise(chain, {id(env.atoms[n]): v for n, v in DECLARED_UNIQUE.get(dom, {}).items() if n in env.atoms}):
+            for f in recognise(chain, {id(env.atoms[n]): v for n, v in DECLARED_UNIQUE.get(dom, {}).items() if n in env.atoms}, inv_pairs):
                 violations.append({'kind': 'pattern-left', 'case': case,
                                    'detail': f'{f} in {xstate.describe(env, chain)} (result {xstate.describe(env, res_ops)})'})
         # (2b) the normal form is a fixed point: reducing the result again must not change it
